@@ -440,6 +440,38 @@ Fixpoint remove_indexed (base : value) (idx : list value) {struct idx} : value :
 Definition remove_indexed_map (m : amap) (idx : list value) : amap :=
   match remove_indexed (VMap m) idx with VMap m' => m' | _ => m end.
 
+(* ---- positional field names and values: Mlrmap.findEntryByPositionalIndex (1..n and the aliases -n..-1, else no entry),
+   GetNameAtPositionalIndex, GetWithPositionalIndex, PutCopyWithPositionalIndex, PutNameWithPositionalIndex *)
+Definition pos_idx (m : amap) (p : Z) : option nat :=
+  let n := Z.of_nat (List.length m) in if arr_inb n p then Some (zidx n p) else None.
+Definition pos_name (m : amap) (p : Z) : option bytes :=
+  match pos_idx m p with Some i => option_map fst (nth_error m i) | None => None end.
+Definition pos_value (m : amap) (p : Z) : option value :=
+  match pos_idx m p with Some i => option_map snd (nth_error m i) | None => None end.
+Fixpoint pos_set_value (m : amap) (i : nat) (v : value) : amap :=
+  match m, i with
+  | [], _ => []
+  | (k, _) :: t, O => (k, v) :: t
+  | kv :: t, S j => kv :: pos_set_value t j v
+  end.
+Definition pos_put_value (m : amap) (p : Z) (v : value) : amap :=
+  match pos_idx m p with Some i => pos_set_value m i v | None => m end.      (* out of range: no-op *)
+(* rename the i-th entry to s; another entry already called s is unlinked *)
+Fixpoint pos_rename (m : amap) (i : nat) (s : bytes) : amap :=
+  match m with
+  | [] => []
+  | (k, v) :: t =>
+      match i with
+      | O => (s, v) :: mremove s t
+      | S j => if beqb k s then pos_rename t j s else (k, v) :: pos_rename t j s
+      end
+  end.
+Definition pos_put_name (m : amap) (p : Z) (name : value) : amap :=
+  match pos_idx m p, key_for_get name with                (* name.IsString() || name.IsInt(); anything else: no-op *)
+  | Some i, Some s => pos_rename m i s
+  | _, _ => m
+  end.
+
 (* ---- unary built-in functions of the typing class (pkg/bifs/types.go) and length (pkg/bifs/collections.go) *)
 Inductive fun1 := FTypeof | FIsAbsent | FIsPresent | FIsError | FIsMap | FIsString | FIsInt | FIsBool | FIsEmpty | FLength | FIsArray.
 
